@@ -2,6 +2,7 @@ package harness
 
 import (
 	"fmt"
+	"log"
 	"strings"
 	"sync"
 	"testing"
@@ -83,6 +84,7 @@ func TestC06(t *testing.T) {
 	forCases(8, 63, "sc", func(i int, r *rng, id string) { scaleLeg("C06", "susp", r, id, 0) })
 	// suspicion on the node's own evidence: the real probe round against silent, late and answering peers; the
 	// accusation it queues is signed by the node itself
+	forCases(60, 65, "r", func(i int, r *rng, id string) { c06Race(r, id) })
 	c19Prop = "C06"
 	forCases(n/20, 64, "p", func(i int, r *rng, id string) {
 		synctest.Test(t, func(t *testing.T) { c19Probe(r, id) })
@@ -133,4 +135,78 @@ func timerHistory(prop string, r *rng, id string) {
 		}
 	}
 	runHistory(prop, id, c, ops)
+}
+
+// hookWriter is a log sink that runs f (once) when a line containing match is written: the library's own log
+// statements are schedule points - whatever another goroutine could do at that moment is done there.
+type hookWriter struct {
+	match string
+	f     func()
+	done  bool
+}
+
+func (w *hookWriter) Write(p []byte) (int, error) {
+	if !w.done && w.f != nil && strings.Contains(string(p), w.match) {
+		w.done = true
+		w.f()
+	}
+	return len(p), nil
+}
+
+// c06Race: the suspicion of a member expires; while the expiry is being carried out (after it has checked the
+// record, before it declares the death - the window contains a log statement) the member's refutation is
+// accepted on another path. The refutation came first: the member stays.
+func c06Race(r *rng, id string) {
+	w := &hookWriter{match: "suspect timeout reached"}
+	conf := ml.DefaultLANConfig()
+	conf.Name = "S"
+	conf.Transport = newCapTransport()
+	conf.AdvertiseAddr = "10.0.0.9"
+	conf.AdvertisePort = 7946
+	conf.BindPort = 7946
+	conf.ProbeInterval = time.Hour
+	conf.GossipInterval = 0
+	conf.PushPullInterval = 0
+	conf.Logger = log.New(w, "", 0)
+	m, err := ml.Create(conf)
+	if err != nil {
+		return
+	}
+	defer m.Shutdown()
+	ml.VerifDeschedule(m)
+	vsn := []uint8{1, 5, 2, 0, 0, 0}
+	peers := 1 + r.intn(6)
+	for i := 0; i < peers; i++ {
+		ml.VerifAliveNode(m, 1, fmt.Sprintf("p%d", i), []byte{10, 0, 1, byte(i + 1)}, 7946, nil, vsn, nil, false)
+	}
+	inc := uint32(1 + r.intn(5))
+	ml.VerifAliveNode(m, inc, "T", []byte{10, 0, 0, 1}, 7946, []byte("t"), vsn, nil, false)
+	ml.VerifSuspectNode(m, inc, "T", []string{"S", "p0"}[r.intn(2)])
+	tm, ok := ml.VerifSnapshotState(m).Timers["T"]
+	if !ok {
+		return
+	}
+	how := r.intn(3)
+	w.f = func() {
+		switch how {
+		case 0: // the refutation arrives as gossip
+			ml.VerifAliveNode(m, inc+1, "T", []byte{10, 0, 0, 1}, 7946, []byte("t"), vsn, nil, false)
+		case 1: // ... by push/pull
+			ml.VerifMergeState(m, []ml.VerifPushNodeState{{Name: "T", Addr: []byte{10, 0, 0, 1}, Port: 7946, Meta: []byte("t"), Incarnation: inc + 1, State: ml.StateAlive, Vsn: vsn}})
+		default: // nothing happens in the window: the expiry goes through
+		}
+	}
+	tm.Handle.Fire()
+	st, ginc, listed := -1, uint32(0), 0
+	for _, nd := range ml.VerifSnapshotState(m).Nodes {
+		if nd.Name == "T" {
+			st, ginc = int(nd.State), nd.Incarnation
+		}
+	}
+	for _, nd := range m.Members() {
+		if nd.Name == "T" {
+			listed = 1
+		}
+	}
+	emit("C06 race id=%s inc=%d how=%d hooked=%d state=%d ginc=%d listed=%d", id, inc, how, b2i(w.done), st, ginc, listed)
 }
